@@ -1336,7 +1336,7 @@ func c08Witnesses() map[string][2]interface{} {
 
 func TestC08(t *testing.T) {
 	c := hx.NewCollector("C08", "exploration",
-		"rapid-drawn block shapes (FormatMinerBlock / FormatBlock / FormatRootBlock of a real ledger; 0..9 transactions, tx versions 1 and 3, with/without coinbase, quorum certificate with 0..4 sign infos, 0..3 failed-tx messages, target bits 0 / small / huge, small / nanosecond / extreme timestamps, any of 12 proposer keys, root or arbitrary prehash); the formatted block must verify (also after a protobuf round trip), its id must equal MakeBlockID and its root an independent merkle implementation; then every applicable single mutation of the enumerated list (each hashed header field incl. every Justify / sign-info / failed-tx message field, in the variants stale id / id recomputed / id recomputed and re-signed by another key; body add / drop / duplicate / dup-tail / swap / rotate / replace / txid change / content change with and without txid recomputation, in the variants body only / header reformatted / reformatted and re-signed by another key; signature and id corruptions, foreign-key re-signing with and without switching Pubkey or Proposer) must be refused by VerifyBlock, a content change under an unchanged txid by MakeTransactionID != txid. Merkle differential for 1..33 leaves. Non-trivial = tx count not a power of two, or justify present; distinct = hash of (block shape descriptor, mutation descriptor)",
+		"rapid-drawn block shapes (FormatMinerBlock / FormatBlock / FormatRootBlock of a real ledger; 0..9 transactions, tx versions 1 and 3, with/without coinbase, quorum certificate with 0..4 sign infos, 0..3 failed-tx messages, target bits 0 / small / huge, small / nanosecond / extreme timestamps, any of 12 proposer keys, root or arbitrary prehash); the formatted block must verify (also after a protobuf round trip), its id must equal MakeBlockID and its root an independent merkle implementation; then every applicable single mutation of the enumerated list (each hashed header field incl. every Justify / sign-info / failed-tx message field, in the variants stale id / id recomputed / id recomputed and re-signed by another key; body add / drop / duplicate / dup-tail / swap / rotate / replace / txid change / content change with and without txid recomputation, in the variants body only / header reformatted / reformatted and re-signed by another key; signature and id corruptions, foreign-key re-signing with and without switching Pubkey or Proposer) must be refused by VerifyBlock, a content change under an unchanged txid by MakeTransactionID != txid. Merkle differential for 1..33 leaves. Non-trivial = tx count not a power of two, or justify present; distinct = hash of (block shape descriptor, mutation descriptor) || sync-path: the REAL block synchronisation path of the node - Miner.ProcBlock (pushed block) and the miner own catch-up trySyncBlock(nil) with a stub network and consensus - is fed genuine chains of 1-4 blocks and copies tampered under the genuine id (dropped / added / swapped transaction, re-formatted body, altered timestamp, foreign signature or key), as target or as downloaded ancestor, also as a second delivery after the consensus refused the genuine first one; after every delivery every stored block must verify when read back and equal the genuine block of its id, genuine chains must be accepted (vacuity guard)",
 		"SHA-256 collisions and ECDSA forgeries do not occur",
 		"a real block carries at least the award transaction: for 0 transactions only the id is checked and the VerifyBlock verdict is labelled (VerifyMerkle refuses an empty body)",
 		"the root block is confirmed without VerifyBlock (unsigned): only id and merkle root are checked for it",
@@ -1470,4 +1470,5 @@ diff:
 			c.Count(b.shapeH+"|"+mu.K+"|"+mu.V+fmt.Sprintf("|%d|%d", mu.I, mu.J), nt, "mut:"+mu.K, "variant:"+v, lbl)
 		}
 	})
+	c08SyncPath(t, c)
 }
